@@ -596,7 +596,8 @@ def r5(ctx):
         oa = ownership(ana, q)
         memo_objs = {o for o in oa.stats["objects"] if o.kind == "memo"}
         reach = oa.reachable(memo_objs)
-        bad = [(m, [o for o in m.targets if o in reach]) for m in oa.mutations]
+        # (a write inside the memoised function itself builds the result before it is cached: it runs once per key)
+        bad = [(m, [o for o in m.targets if o in reach]) for m in oa.mutations if m.func not in cached]
         bad = [(m, objs) for m, objs in bad if objs]
         fi = ana.func(q)
         for m, objs in bad:
